@@ -349,7 +349,7 @@ func execScript(ops []hx.T) (outOps []hx.T, obs []any, nontrivial bool) {
 				emit = hx.C("OHandle", -1)
 			}
 		case "OStress":
-			ev = runStress(o.Int(0), o.Ints(1))
+			ev = stressIsolated(o)
 			nontrivial = true
 		default:
 			panic("c04: unknown op " + o.Name)
